@@ -573,7 +573,7 @@ def c10():
                               'node sizes from the type layout (sizeof), independent of the tree code',
                               'allocation accounting: live block counter of the allocation model'],
                  explanation='After one operation with a fully symbolic key on catalogue trees (and on the generated structural cases with faults) the public getters equal the reference computed from the key set; '
-                             'growth/shrink counters are monotone and move exactly with a structural change; clear() zeroes everything and returns every block; insert+remove restores the getters.')
+                             'growth/shrink counters are monotone and move exactly with a structural change; clear() zeroes everything and returns every block; insert+remove restores the getters.', jobs=14)
 
 
 QPTR_EXT = ['gh_reg_count', 'gh_reg_mult', 'gh_reg_errors', '_ZN5unodb6detail13qsbr_ptr_base19register_active_ptrEPKv', '_ZN5unodb6detail13qsbr_ptr_base21unregister_active_ptrEPKv']
@@ -700,7 +700,7 @@ OLC_ASSUME = ['own sequentialisation: two simulated threads in one sequential pr
 def c03():
     return Check('C03', 'exploration', olc_queries('C03'), assumptions=OLC_ASSUME,
                  explanation='Results of two overlapping operations (and the final content) must equal those of one of their two sequential orders, for every preemption point of thread A. '
-                             'Not covered: more than one preemption, three or more threads, interleavings in which the preempting operation is itself preempted, weak memory.')
+                             'Not covered: more than one preemption, three or more threads, interleavings in which the preempting operation is itself preempted, weak memory.', jobs=14)
 
 
 def c04():
@@ -711,14 +711,14 @@ def c04():
     extra += retire_queries()
     return Check('C04', 'exploration', olc_queries('C04') + extra, assumptions=OLC_ASSUME + ['CBMC pointer checks: any dereference of a deallocated or out-of-bounds object on any explored schedule fails; '
                  'the value view obtained by a preempted get() is re-read after the competing remove and before the reader quiesces; after both threads quiesced twice nothing retired may remain allocated (live block count)'],
-                 explanation='Same schedules as C03 with the real QSBR code (two registrations): no access to reclaimed memory, views stay valid until the quiescent state.')
+                 explanation='Same schedules as C03 with the real QSBR code (two registrations): no access to reclaimed memory, views stay valid until the quiescent state.', jobs=14)
 
 
 def c14():
     return Check('C14', 'exploration', olc_queries('C14') + olc_fault_queries(), assumptions=OLC_ASSUME + ['allocation failures (the C08 clause of the property): every structural case x every allocation of an insert/remove on the olc_db fails in turn '
                  '(one registered thread, fault position enumerated); after the exception the same sweep must complete','after every schedule a sweep (get of every key, insert+remove next to every key) must complete within the unwinding bound of the restart loops: '
                  'a lock left held makes the sweep spin past the bound, which is reported'],
-                 explanation='No lock left held after any explored schedule; wait cycles among three or more threads are outside the bound (deadlock-freedom proper is not decided).')
+                 explanation='No lock left held after any explored schedule; wait cycles among three or more threads are outside the bound (deadlock-freedom proper is not decided).', jobs=14)
 
 
 QSBR_SCEN = {  # scenario -> (max preemption index, what)
@@ -811,12 +811,12 @@ def retire_queries():
 
 def c05():
     return Check('C05', 'exploration', qstate_queries() + qsbr_queries('C05'), assumptions=QSBR_ASSUME,
-                 explanation='L1: state-word arithmetic for all words (SAT). Scenarios: no free while a thread registered at request time has yet to quiesce/pause/exit, for every preemption point of the racing call.')
+                 explanation='L1: state-word arithmetic for all words (SAT). Scenarios: no free while a thread registered at request time has yet to quiesce/pause/exit, for every preemption point of the racing call.', jobs=14)
 
 
 def c06():
     return Check('C06', 'exploration', qstate_queries() + qsbr_queries('C06'), assumptions=QSBR_ASSUME,
-                 explanation='Exactly-once execution of every deferred deallocation after the drain, thread-count getter vs ghost count at every call boundary, three-round bound, empty lists after the drain, for every preemption point.')
+                 explanation='Exactly-once execution of every deferred deallocation after the drain, thread-count getter vs ghost count at every call boundary, three-round bound, empty lists after the drain, for every preemption point.', jobs=14)
 
 
 SCANC_SCEN = {  # scenario -> (max preemption index, what)
@@ -864,7 +864,7 @@ def c09():
                  assumptions=OLC_ASSUME + ['iterators on the guarded fixed-capacity stack hook; write-only key_buffer stubbed; all values of a key are equal in these scenarios, so "a value its key held at some moment" is the value byte derived from the key',
                                            'one writer operation per scan; the writer is not preempted; scans of 4-5 entries'],
                  explanation='For every preemption point of a scan (scan, scan_from, scan_range; both directions) one complete insert or remove of another thread: strictly monotone order, interval, no key absent throughout, '
-                             'every entry present throughout delivered exactly once. Not covered: two or more writer operations per scan, two scanners, more than one preemption.')
+                             'every entry present throughout delivered exactly once. Not covered: two or more writer operations per scan, two scanners, more than one preemption.', jobs=14)
 
 
 REGISTRY = {'C09': c09, 'C05': c05, 'C06': c06, 'C03': c03, 'C04': c04, 'C14': c14, 'C17': c17, 'C08': c08, 'C10': c10, 'C13': c13, 'C16': c16, 'C02': c02, 'C01': c01, 'C07': c07, 'C11': c11, 'C12': c12, 'C15': c15}
